@@ -309,10 +309,38 @@ func (c *Conn) loadSession(dest string, hello *clientHelloMsg) (cacheKey string,
 	if !ok || session == nil {
 		return cacheKey, nil
 	}
+	// 未关闭验证时，会话中记录的证书必须在当前配置下仍然有效，否则不重用（走完整握手）
+	if !c.config.InsecureSkipVerify && !c.sessionCertsStillValid(session) {
+		return "", nil
+	}
 	hello.sessionId = session.sessionId
 	cacheKey = hex.EncodeToString(session.sessionId)
 
 	return cacheKey, session
+}
+
+// sessionCertsStillValid 检查会话中记录的服务端证书（签名证书、加密证书）在当前配置下是否仍然通过验证。
+// 会话可能由另一个共享缓存但未开启验证的配置创建，重用前必须按当前配置重新验证。
+func (c *Conn) sessionCertsStillValid(session *SessionState) bool {
+	certs := session.peerCertificates
+	if len(certs) < 2 {
+		return false
+	}
+	opts := x509.VerifyOptions{
+		Roots:         c.config.RootCAs,
+		CurrentTime:   c.config.time(),
+		DNSName:       c.config.ServerName,
+		Intermediates: x509.NewCertPool(),
+	}
+	for _, cert := range certs[2:] {
+		opts.Intermediates.AddCert(cert)
+	}
+	for _, cert := range certs[:2] {
+		if _, err := cert.Verify(opts); err != nil {
+			return false
+		}
+	}
+	return true
 }
 
 // =============================================================================
